@@ -1506,7 +1506,8 @@ func specPeersInv(up4 *UP4) bool {
 			return implies(lo(up4.tunnelPeerIDsPool) <= a && a < b && b < hi(up4.tunnelPeerIDsPool), at(up4.tunnelPeerIDsPool, a) != at(up4.tunnelPeerIDsPool, b))
 		}) &&
 		forall(func(k tunnelParams) bool {
-			return implies(has(up4.tunnelPeerIDs, k), specPeerIDOK(up4.tunnelPeerIDs[k].id) && up4.tunnelPeerIDs[k].usedBy != nil)
+			return implies(has(up4.tunnelPeerIDs, k), specPeerIDOK(up4.tunnelPeerIDs[k].id) && up4.tunnelPeerIDs[k].usedBy != nil &&
+				gsOnly[tnlPeerReference]("set", dynRef(up4.tunnelPeerIDs[k].usedBy)))
 		}) &&
 		forall(func(k tunnelParams, a int) bool {
 			return implies(has(up4.tunnelPeerIDs, k) && lo(up4.tunnelPeerIDsPool) <= a && a < hi(up4.tunnelPeerIDsPool), at(up4.tunnelPeerIDsPool, a) != up4.tunnelPeerIDs[k].id)
@@ -1522,14 +1523,16 @@ func specPeerParams(up4 *UP4, f far) tunnelParams {
 }
 
 func specPeerEnv(up4 *UP4) bool {
-	return up4 != nil && up4.accessIP != nil && len(up4.accessIP.IP) == 4 && up4.p4RtTranslator != nil && up4.p4client != nil
+	// the N3 address bytes do not share storage with the byte-typed ID queues
+	return up4 != nil && up4.accessIP != nil && len(up4.accessIP.IP) == 4 && up4.p4RtTranslator != nil && up4.p4client != nil &&
+		!sameArray([]byte(up4.accessIP.IP), up4.tunnelPeerIDsPool) && !sameArray([]byte(up4.accessIP.IP), up4.applicationIDsPool)
 }
 
 //@ func (up4 *UP4) addOrUpdateGTPTunnelPeer(far far) (err error)
 //@   requires specPeerEnv(up4) && !held(&up4.tunnelPeerMu)
 //@   requires specPeersInv(up4)
 //@   ensures C11.peer.add.lock: !held(&up4.tunnelPeerMu)
-//@   ensures C15.peer.add.inv: specPeersInv(up4)
+//@   ensures C15.peer.add.inv: specPeersInv(up4) && specPeerEnv(up4) && ip2int(up4.accessIP.IP) == old[uint32](ip2int(up4.accessIP.IP))
 //@   ensures C15.peer.add.keep: forall k tunnelParams, r tnlPeerReference :: old[bool](has(up4.tunnelPeerIDs, k) && setHas(up4.tunnelPeerIDs[k].usedBy, r)) ==> has(up4.tunnelPeerIDs, k) && setHas(up4.tunnelPeerIDs[k].usedBy, r)
 //@   ensures C15.peer.add.ids: forall k tunnelParams :: old[bool](has(up4.tunnelPeerIDs, k)) ==> has(up4.tunnelPeerIDs, k) && up4.tunnelPeerIDs[k] == old[tunnelPeer](up4.tunnelPeerIDs[k])
 //@   ensures C15.peer.add.only: forall k tunnelParams :: k != specPeerParams(up4, far) ==> (has(up4.tunnelPeerIDs, k) <==> old[bool](has(up4.tunnelPeerIDs, k)))
@@ -1538,3 +1541,98 @@ func specPeerEnv(up4 *UP4) bool {
 //@   ensures C15.peer.add.others: gsOthersSame("set", old[int](dynRef(up4.tunnelPeerIDs[specPeerParams(up4, far)].usedBy)), 0)
 //@   ensures C04.peer.add.write: glen("p4table") <= old[int](glen("p4table"))+1 && (err == nil ==> glen("p4table") == old[int](glen("p4table"))+1)
 //@   ensures C04.peer.add.method: glen("p4table") == old[int](glen("p4table"))+1 ==> gfield("p4table.n", gentry("p4table", old[int](glen("p4table")))) == 1 && specTableEntry(gentry("p4table", old[int](glen("p4table"))), 0).TableId == p4constants.TablePreQosPipeTunnelPeers && (old[bool](has(up4.tunnelPeerIDs, specPeerParams(up4, far))) ==> gfield("p4table.method", gentry("p4table", old[int](glen("p4table")))) == uint64(p4.Update_MODIFY)) && (!old[bool](has(up4.tunnelPeerIDs, specPeerParams(up4, far))) ==> gfield("p4table.method", gentry("p4table", old[int](glen("p4table")))) == uint64(p4.Update_INSERT))
+
+//@ func (up4 *UP4) removeGTPTunnelPeer(far far)
+//@   requires specPeerEnv(up4) && !held(&up4.tunnelPeerMu)
+//@   requires specPeersInv(up4)
+//@   ensures C11.peer.del.lock: !held(&up4.tunnelPeerMu)
+//@   ensures C15.peer.del.inv: specPeersInv(up4) && specPeerEnv(up4) && ip2int(up4.accessIP.IP) == old[uint32](ip2int(up4.accessIP.IP))
+//@   ensures C15.peer.del.keep: forall k tunnelParams, r tnlPeerReference :: old[bool](has(up4.tunnelPeerIDs, k) && setHas(up4.tunnelPeerIDs[k].usedBy, r)) && (k != specPeerParams(up4, far) || r != tnlPeerReference{far.fseID, far.farID}) ==> has(up4.tunnelPeerIDs, k) && setHas(up4.tunnelPeerIDs[k].usedBy, r)
+//@   ensures C15.peer.del.ids: forall k tunnelParams :: has(up4.tunnelPeerIDs, k) ==> old[bool](has(up4.tunnelPeerIDs, k)) && up4.tunnelPeerIDs[k] == old[tunnelPeer](up4.tunnelPeerIDs[k])
+//@   ensures C15.peer.del.only: forall k tunnelParams :: k != specPeerParams(up4, far) ==> (has(up4.tunnelPeerIDs, k) <==> old[bool](has(up4.tunnelPeerIDs, k)))
+//@   ensures C15.peer.del.ref: old[bool](has(up4.tunnelPeerIDs, specPeerParams(up4, far))) ==> !setHas(old[set.Set](up4.tunnelPeerIDs[specPeerParams(up4, far)].usedBy), tnlPeerReference{far.fseID, far.farID})
+//@   ensures C15.peer.del.inuse: has(up4.tunnelPeerIDs, specPeerParams(up4, far)) ==> setCard(up4.tunnelPeerIDs[specPeerParams(up4, far)].usedBy) != 0 || glen("p4table") == old[int](glen("p4table"))
+//@   ensures C15.peer.del.others: gsOthersSame("set", old[int](dynRef(up4.tunnelPeerIDs[specPeerParams(up4, far)].usedBy)), 0)
+//@   ensures C04.peer.del.write: glen("p4table") <= old[int](glen("p4table"))+1
+//@   ensures C04.peer.del.method: glen("p4table") == old[int](glen("p4table"))+1 ==> !has(up4.tunnelPeerIDs, specPeerParams(up4, far)) && gfield("p4table.method", gentry("p4table", old[int](glen("p4table")))) == uint64(p4.Update_DELETE) && gfield("p4table.n", gentry("p4table", old[int](glen("p4table")))) == 1 && specTableEntry(gentry("p4table", old[int](glen("p4table"))), 0).TableId == p4constants.TablePreQosPipeTunnelPeers
+
+//@ func (up4 *UP4) getGTPTunnelPeer(tnlParams tunnelParams) (p tunnelPeer, ok bool)
+//@   requires up4 != nil && !held(&up4.tunnelPeerMu)
+//@   pure
+//@   ensures C11.peer.get.lock: !held(&up4.tunnelPeerMu)
+//@   ensures C04.peer.get: ok == has(up4.tunnelPeerIDs, tnlParams) && p == up4.tunnelPeerIDs[tnlParams]
+
+//@ func (up4 *UP4) updateTunnelPeersBasedOnFARs(fars []far) (err error)
+//@   requires specPeerEnv(up4) && !held(&up4.tunnelPeerMu)
+//@   requires specPeersInv(up4)
+//@   ensures C11.peers.update.lock: !held(&up4.tunnelPeerMu)
+//@   ensures C15.peers.update.inv: specPeersInv(up4) && specPeerEnv(up4) && ip2int(up4.accessIP.IP) == old[uint32](ip2int(up4.accessIP.IP))
+//@   ensures C15.peers.update.keep: forall k tunnelParams, r tnlPeerReference :: old[bool](has(up4.tunnelPeerIDs, k) && setHas(up4.tunnelPeerIDs[k].usedBy, r)) ==> has(up4.tunnelPeerIDs, k) && setHas(up4.tunnelPeerIDs[k].usedBy, r)
+//@   ensures C15.peers.update.ids: forall k tunnelParams :: old[bool](has(up4.tunnelPeerIDs, k)) ==> has(up4.tunnelPeerIDs, k) && up4.tunnelPeerIDs[k] == old[tunnelPeer](up4.tunnelPeerIDs[k])
+//@   ensures C04.peers.update.ok: err == nil ==> forall j int :: 0 <= j && j < len(fars) && fars[j].Forwards() && fars[j].dstIntf == ie.DstInterfaceAccess && fars[j].tunnelTEID != 0 ==> has(up4.tunnelPeerIDs, specPeerParams(up4, fars[j])) && setHas(up4.tunnelPeerIDs[specPeerParams(up4, fars[j])].usedBy, tnlPeerReference{fars[j].fseID, fars[j].farID})
+//@   loop 1 invariant C15.peers.update.l1.inv: specPeersInv(up4) && !held(&up4.tunnelPeerMu) && specPeerEnv(up4) && ip2int(up4.accessIP.IP) == old[uint32](ip2int(up4.accessIP.IP))
+//@   loop 1 invariant C15.peers.update.l1.keep: forall k tunnelParams, r tnlPeerReference :: old[bool](has(up4.tunnelPeerIDs, k) && setHas(up4.tunnelPeerIDs[k].usedBy, r)) ==> has(up4.tunnelPeerIDs, k) && setHas(up4.tunnelPeerIDs[k].usedBy, r)
+//@   loop 1 invariant C15.peers.update.l1.ids: forall k tunnelParams :: old[bool](has(up4.tunnelPeerIDs, k)) ==> has(up4.tunnelPeerIDs, k) && up4.tunnelPeerIDs[k] == old[tunnelPeer](up4.tunnelPeerIDs[k])
+//@   loop 1 invariant C04.peers.update.l1.ok: forall j int :: 0 <= j && j <= rangeidx && fars[j].Forwards() && fars[j].dstIntf == ie.DstInterfaceAccess && fars[j].tunnelTEID != 0 ==> has(up4.tunnelPeerIDs, specPeerParams(up4, fars[j])) && setHas(up4.tunnelPeerIDs[specPeerParams(up4, fars[j])].usedBy, tnlPeerReference{fars[j].fseID, fars[j].farID})
+
+// ---------------------------------------------------------------------------
+// C15 / C04 / C11: internal application IDs (reference counted, IDs from a queue)
+// ---------------------------------------------------------------------------
+
+func specAppIDOK(id uint8) bool { return 1 <= id && int(id) < maxApplicationIDs+1 }
+
+// specAppsInv (C15): the application-ID counterpart of specPeersInv.
+func specAppsInv(up4 *UP4) bool {
+	return up4.applicationIDs != nil &&
+		forall(func(a int) bool {
+			return implies(lo(up4.applicationIDsPool) <= a && a < hi(up4.applicationIDsPool), specAppIDOK(at(up4.applicationIDsPool, a)))
+		}) &&
+		forall(func(a, b int) bool {
+			return implies(lo(up4.applicationIDsPool) <= a && a < b && b < hi(up4.applicationIDsPool), at(up4.applicationIDsPool, a) != at(up4.applicationIDsPool, b))
+		}) &&
+		forall(func(k up4ApplicationFilter) bool {
+			return implies(has(up4.applicationIDs, k), specAppIDOK(up4.applicationIDs[k].id) && up4.applicationIDs[k].usedBy != nil &&
+				gsOnly[internalAppReference]("set", dynRef(up4.applicationIDs[k].usedBy)))
+		}) &&
+		forall(func(k up4ApplicationFilter, a int) bool {
+			return implies(has(up4.applicationIDs, k) && lo(up4.applicationIDsPool) <= a && a < hi(up4.applicationIDsPool), at(up4.applicationIDsPool, a) != up4.applicationIDs[k].id)
+		}) &&
+		forall(func(k1, k2 up4ApplicationFilter) bool {
+			return implies(has(up4.applicationIDs, k1) && has(up4.applicationIDs, k2) && k1 != k2,
+				up4.applicationIDs[k1].id != up4.applicationIDs[k2].id && dynRef(up4.applicationIDs[k1].usedBy) != dynRef(up4.applicationIDs[k2].usedBy))
+		})
+}
+
+// specAppEnvelope: what BuildApplicationsTableEntry needs from the PDR and the configuration (C16).
+func specAppEnvelope(up4 *UP4, p pdr) bool {
+	return up4.conf.SliceID <= 15 && p.precedence <= 65534 && specAppPorts(p).low <= specAppPorts(p).high
+}
+
+//@ func (up4 *UP4) addInternalApplicationIDAndGetP4rtEntry(pdr pdr) (entry *p4.TableEntry, id uint8, err error)
+//@   requires up4 != nil && up4.p4RtTranslator != nil && !held(&up4.applicationMu)
+//@   requires specAppsInv(up4)
+//@   requires C16.app.add.envelope: specAppEnvelope(up4, pdr)
+//@   ensures C11.app.add.lock: !held(&up4.applicationMu)
+//@   ensures C15.app.add.inv: specAppsInv(up4)
+//@   ensures C15.app.add.keep: forall k up4ApplicationFilter, r internalAppReference :: old[bool](has(up4.applicationIDs, k) && setHas(up4.applicationIDs[k].usedBy, r)) ==> has(up4.applicationIDs, k) && setHas(up4.applicationIDs[k].usedBy, r)
+//@   ensures C15.app.add.ids: forall k up4ApplicationFilter :: old[bool](has(up4.applicationIDs, k)) ==> has(up4.applicationIDs, k) && up4.applicationIDs[k] == old[internalApp](up4.applicationIDs[k])
+//@   ensures C15.app.add.only: forall k up4ApplicationFilter :: k != toUP4ApplicationFilter(pdr) ==> (has(up4.applicationIDs, k) <==> old[bool](has(up4.applicationIDs, k)))
+//@   ensures C04.app.add.ok: err == nil ==> has(up4.applicationIDs, toUP4ApplicationFilter(pdr)) && setHas(up4.applicationIDs[toUP4ApplicationFilter(pdr)].usedBy, internalAppReference{pdr.fseID, pdr.pdrID}) && id == up4.applicationIDs[toUP4ApplicationFilter(pdr)].id && specAppIDOK(id)
+//@   ensures C04.app.add.entry: (entry != nil) <==> (err == nil && !old[bool](has(up4.applicationIDs, toUP4ApplicationFilter(pdr))))
+//@   ensures C16.app.add.shape: entry != nil ==> specEntryShape(entry, 1) && !allocated(entry) && entry.TableId == p4constants.TablePreQosPipeApplications && entry.Priority == int32(65535-pdr.precedence)
+//@   ensures C15.app.add.fail: err != nil ==> id == 0 && (has(up4.applicationIDs, toUP4ApplicationFilter(pdr)) <==> old[bool](has(up4.applicationIDs, toUP4ApplicationFilter(pdr))))
+//@   ensures C15.app.add.others: gsOthersSame("set", old[int](dynRef(up4.applicationIDs[toUP4ApplicationFilter(pdr)].usedBy)), 0)
+
+//@ func (up4 *UP4) removeInternalApplicationIDAndGetP4rtEntry(pdr pdr) (entry *p4.TableEntry, id uint8)
+//@   requires up4 != nil && up4.p4RtTranslator != nil && !held(&up4.applicationMu)
+//@   requires specAppsInv(up4)
+//@   requires C16.app.del.envelope: specAppEnvelope(up4, pdr)
+//@   ensures C11.app.del.lock: !held(&up4.applicationMu)
+//@   ensures C15.app.del.inv: specAppsInv(up4)
+//@   ensures C15.app.del.keep: forall k up4ApplicationFilter, r internalAppReference :: old[bool](has(up4.applicationIDs, k) && setHas(up4.applicationIDs[k].usedBy, r)) && (k != toUP4ApplicationFilter(pdr) || r != internalAppReference{pdr.fseID, pdr.pdrID}) ==> has(up4.applicationIDs, k) && setHas(up4.applicationIDs[k].usedBy, r)
+//@   ensures C15.app.del.ids: forall k up4ApplicationFilter :: has(up4.applicationIDs, k) ==> old[bool](has(up4.applicationIDs, k)) && up4.applicationIDs[k] == old[internalApp](up4.applicationIDs[k])
+//@   ensures C15.app.del.only: forall k up4ApplicationFilter :: k != toUP4ApplicationFilter(pdr) ==> (has(up4.applicationIDs, k) <==> old[bool](has(up4.applicationIDs, k)))
+//@   ensures C04.app.del.id: old[bool](has(up4.applicationIDs, toUP4ApplicationFilter(pdr))) ==> id == old[uint8](up4.applicationIDs[toUP4ApplicationFilter(pdr)].id)
+//@   ensures C04.app.del.entry: entry != nil ==> !has(up4.applicationIDs, toUP4ApplicationFilter(pdr)) && old[bool](has(up4.applicationIDs, toUP4ApplicationFilter(pdr)))
+//@   ensures C16.app.del.shape: entry != nil ==> specEntryShape(entry, 1) && !allocated(entry) && entry.TableId == p4constants.TablePreQosPipeApplications && entry.Priority == int32(65535-pdr.precedence)
+//@   ensures C15.app.del.others: gsOthersSame("set", old[int](dynRef(up4.applicationIDs[toUP4ApplicationFilter(pdr)].usedBy)), 0)
